@@ -724,7 +724,9 @@ func (s *Store) ExportedServicesForPeer(ws memdb.WatchSet, peerID string, dc str
 		return 0, nil, fmt.Errorf("failed to read peering: %w", err)
 	}
 	if peering == nil {
-		return 0, &structs.ExportedServiceList{}, nil
+		// Return the tables index so the reported index does not fall back to
+		// zero when the peering is deleted and the caller can keep blocking.
+		return maxIndexWatchTxn(tx, ws, tablePeering), &structs.ExportedServiceList{}, nil
 	}
 
 	return exportedServicesForPeerTxn(ws, tx, peering, dc)
